@@ -284,6 +284,12 @@ func (w *world) attempts(sp spelling, depth int) []attempt {
 	add("key-same-bucket", "GetObject", pathReq("GET", nb+"x/"+sp.wire+"seed/a.txt", "", nil), named, "x/"+sp.text+"seed/a.txt", true)
 	add("key-same-bucket", "DeleteObject", pathReq("DELETE", nb+"x/"+sp.wire+"seed/a.txt", "", nil), named, "x/"+sp.text+"seed/a.txt", false)
 	add("key-same-bucket", "PutObject", pathReq("PUT", nb+"x/"+sp.wire+"seed/a.txt", "", []byte("REPLACED-BY-C04")), named, "x/"+sp.text+"seed/a.txt", false)
+	// a key with an empty segment is another key than the one without it
+	if depth == 1 && sp.name == "raw" {
+		add("key-empty-segment", "PutObject", pathReq("PUT", nb+"seed//a.txt", "", []byte("REPLACED-BY-C04")), named, "seed//a.txt", false)
+		add("key-empty-segment", "DeleteObject", pathReq("DELETE", nb+"seed//b.txt", "", nil), named, "seed//b.txt", false)
+		add("key-empty-segment", "GetObject", pathReq("GET", nb+"seed//a.txt", "", nil), named, "seed//a.txt", true)
+	}
 	// --- bucket in path
 	bw := "/" + upW
 	add("bucket", "ListObjects", pathReq("GET", bw, "", nil), "", "", true)
@@ -575,6 +581,9 @@ func (w *world) run(id string, a attempt, who string, spName string, depth int) 
 		}
 	}
 	// (4) a success on a hostile key in the named bucket must have treated it as an opaque name
+	if resp.OK() && a.param == "key-empty-segment" && a.op == "GetObject" && strings.Contains(hay, "SEEDOBJ-named-a-91c3") {
+		c.Violation(sigBase+":resolved-to-another-object", id, det)
+	}
 	if resp.OK() && a.param == "key-same-bucket" && a.op == "GetObject" {
 		if strings.Contains(hay, "SEEDOBJ-named-a-91c3") {
 			c.Violation(sigBase+":resolved-to-another-object", id, det)
